@@ -23,6 +23,9 @@ structure SSess where
   hsDone : Bool := true
   deriving DecidableEq, Repr, Inhabited
 
+def SSess.isHot (s : SSess) : Bool := s.state == .hot
+def SSess.hasUid (u : Nat) (s : SSess) : Bool := s.uid == u
+
 structure Listener where
   state    : SS := .default
   epoch    : Nat := 0
@@ -33,7 +36,10 @@ structure Listener where
   sent     : List (Nat × Nat) := []     -- (session uid, epoch): HotRestart events written, in order
   okCount  : Nat := 0                   -- completed hand-overs (onHotRestart(true))
   failCount : Nat := 0
+  lostHot  : Nat := 0                   -- ghost: sessions that closed while their ack was awaited
   deriving DecidableEq, Repr, Inhabited
+
+def Listener.hotCount (l : Listener) : Nat := l.sess.countP SSess.isHot
 
 inductive LRes where
   | ok | inProgress | inHandshake | noop
@@ -69,7 +75,7 @@ def Listener.tick (l : Listener) : Listener :=
 def Listener.timeout (l : Listener) : Listener :=
   if !l.checker then l
   else { l with state := .default, ackCount := 0, sess := l.sess.map (fun s => { s with state := .default }),
-                checker := false, failCount := l.failCount + 1 }
+                checker := false, failCount := l.failCount + 1, lostHot := 0 }
 
 /-- Listener.Run accepted a connection -/
 def Listener.add (l : Listener) (hsDone : Bool) : Listener :=
@@ -81,7 +87,8 @@ def Listener.hsDone (l : Listener) (uid : Nat) : Listener :=
 
 /-- a session closed (sessionCallback.OnShutdown -> removeShutdownSession) -/
 def Listener.drop (l : Listener) (uid : Nat) : Listener :=
-  { l with sess := l.sess.filter (·.uid ≠ uid) }
+  { l with sess := l.sess.filter (fun s => !s.hasUid uid),
+           lostHot := l.lostHot + l.sess.countP (fun s => s.hasUid uid && s.isHot) }
 
 inductive LOp where
   | hotRestart (e : Nat) | ack (uid e : Nat) | tick | timeout | add (hs : Bool) | hsDone (uid : Nat) | drop (uid : Nat)
